@@ -10,6 +10,7 @@ import yaml
 
 from ..core import fb, fbs, unfb, close, allclose, fingerprint, safe_oracle
 from .. import hopcommon as hc
+from .. import runcommon as rc
 from . import c01
 
 
@@ -187,6 +188,9 @@ def run(ctx):
                     ctx.corr_mismatch("hop.root", c, "impl scale %r, model root %r (other %r)" % (dp, m["s"], m["sbig"]))
         if not ok:
             ctx.oracle_fail("hop-rule:" + cls, "hop_rule", {"case": c, "cls": cls}, obs, req, text)
+
+    # whole runs against the composed step of the model (MudModel/Step.lean): every snapshot and every event
+    rc.run_correspondence(ctx, ctx.budget(12, 300), hops=True, label="shrun")
 
     # run level: events vs active sequence, both stores
     specs = c01._run_specs(ctx, ctx.budget(16, 160))
